@@ -701,6 +701,10 @@ def _compare(ctx: Ctx, st: Optional[LeanStatus], res: Result, lines: List[Dict[s
         if model is None:
             continue
         m = model[i]
+        if obsname == "generateFragments":
+            m = canon_frag(m)
+        if obsname in ("opImports", "forwardRefs", "extendImports"):
+            m, obs = canon_imports(m), canon_imports(obs)
         if isinstance(obs, dict) and "err" in obs and isinstance(m, dict) and m.get("err") == obs["err"] and obs["err"] == "IsADirectoryError":
             continue
         if not common.same_json(obs, m):
@@ -1033,6 +1037,28 @@ def _e2e_child(root: Path, case: Dict[str, Any]) -> Dict[str, Any]:
     return out
 
 
+def canon_frag(o: Any) -> Any:
+    """FragOut reduced to what can reach a file: class / rebuild ORDER, and the multisets of import
+    statements, public names and used enums (their order is erased by isort / membership tests; a
+    refactor that walks the set in another order must not disturb the comparison)."""
+    if not (isinstance(o, dict) and isinstance(o.get("ok"), dict)):
+        return o
+    m = o["ok"]
+    return {"ok": {"classes": m["classes"], "rebuilds": m["rebuilds"],
+                   "imports": sorted(([i["level"], i["module"], i["names"]] for i in m["imports"]), key=json.dumps),
+                   "publicNames": sorted(m["publicNames"]), "usedEnums": sorted(m["usedEnums"])}}
+
+
+def canon_imports(o: Any) -> Any:
+    """a list of from-import statements as the multiset of (level, module, sorted names): statement and
+    name order are isort's business, never visible in a file"""
+    if isinstance(o, dict) and "ok" in o:
+        return {"ok": canon_imports(o["ok"])}
+    if isinstance(o, list) and all(isinstance(i, dict) and "names" in i for i in o):
+        return sorted(([i["level"], i["module"], sorted(i["names"])] for i in o), key=json.dumps)
+    return o
+
+
 def corr_e2e(ctx: Ctx, st: Optional[LeanStatus], res: Result, cases: List[Dict[str, Any]]) -> None:
     _quiet()
     outs = engine.pmap_forked(_e2e_child, [(c,) for c in cases], timeout=180)
@@ -1056,7 +1082,7 @@ def corr_e2e(ctx: Ctx, st: Optional[LeanStatus], res: Result, cases: List[Dict[s
             defs = [[f, val["defs"].get(f, empty)] for f in val["all_fragments"]]
             lines.append({"op": "generateFragments", "defs": defs, "exclude": val["exclude"], "order": val["order"]})
             if val["outcome"].get("ok"):
-                obs: Any = {"ok": val["module"]}
+                obs: Any = canon_frag({"ok": val["module"]})
             else:
                 obs = {"err": val["outcome"]["err"], "key": val["outcome"].get("key")}
             expect.append(("generateFragments", dict(inp_ref, exclude=val["exclude"], order=val["order"], deps={k: v["mixins"] for k, v in val["defs"].items()}), obs))
@@ -1183,9 +1209,9 @@ def make_cases(ctx: Ctx, label: str, n: int) -> List[Dict[str, Any]]:
     return out
 
 
-def oracle(ctx: Ctx, res: Result, label: str = "oracle") -> None:
-    seeds = list(range(ctx.budget(8, 64)))
-    cases = make_cases(ctx, label, ctx.budget(10, 28))
+def oracle(ctx: Ctx, res: Result, label: str = "oracle", n_seeds: Optional[int] = None, n_cases: Optional[int] = None) -> None:
+    seeds = list(range(n_seeds or ctx.budget(8, 64)))
+    cases = make_cases(ctx, label, n_cases or ctx.budget(10, 28))
     for c in cases:
         for k, v in c["meta"].items():
             res.distribution[f"{label}:max:{k}"] = max(res.distribution.get(f"{label}:max:{k}", 0), v)
@@ -1235,9 +1261,10 @@ def run(ctx: Ctx, st: Optional[LeanStatus]) -> Result:
 
 
 def search(ctx: Ctx) -> Result:
+    """after a broken proof / correspondence: a second, differently seeded oracle sample (a set-order
+    dependence shows with probability >= 1/2 per extra hash seed, so 16 seeds are plenty)"""
     res = Result()
-    ctx.boost = True
-    oracle(ctx, res, "search")
+    oracle(ctx, res, "search", n_seeds=16, n_cases=24)
     return res
 
 
